@@ -943,7 +943,8 @@ mod store {
         c
     }
     fn files(dir: &std::path::Path) -> Vec<String> {
-        let mut v: Vec<String> = std::fs::read_dir(dir).unwrap().map(|e| format!("{}:{}", e.as_ref().unwrap().file_name().to_string_lossy(), e.unwrap().metadata().unwrap().len())).collect();
+        // (a background merge may remove a file between the listing and the stat: such an entry is simply gone)
+        let mut v: Vec<String> = std::fs::read_dir(dir).unwrap().filter_map(|e| { let e = e.ok()?; let len = e.metadata().ok()?.len(); Some(format!("{}:{}", e.file_name().to_string_lossy(), len)) }).collect();
         v.sort();
         v
     }
